@@ -147,6 +147,7 @@ pub fn run(p: &[&str]) -> String {
         "api" => api(&p[1..]),
         "encode_built" | "roundtrip_built" => built(p[0], &p[1..]),
         "nested_sign1" => nested_sign1(&p[1..]),
+        "spine" => spine(&p[1..]),
         "cmp" => { let l = labels(p[1]); format!("{:?}", l[0].cmp(&l[1])) }
         "canonical_check" => canonical_check(&p[1..]),
         "free_structures" => free_structures(&p[1..]),
@@ -663,4 +664,62 @@ fn built(what: &str, p: &[&str]) -> String {
         "SuppPubInfo" => built_ops::<SuppPubInfo>(what, &data),
         other => format!("BADTYPE {}", other),
     }
+}
+
+/// spine <Type> <hex> <limit>: a COSE_Sign1 nesting spine: counts the counter-signature nesting of
+/// the input with an independent walk over the ciborium Value, and checks that it is accepted iff
+/// the nesting does not exceed <limit> (-1: no limit), and that an accepted input round-trips.
+fn spine(p: &[&str]) -> String {
+    let mode = p[0];
+    let data = unhex(p[1]);
+    let limit: i64 = p[2].parse().unwrap();
+    fn depth_of_header(h: &Value) -> usize {
+        // nesting of counter-signatures below this header map
+        let mut best = 0;
+        if let Value::Map(m) = h {
+            for (k, v) in m {
+                if *k == Value::from(7) {
+                    if let Value::Array(a) = v {
+                        let sigs: Vec<&Value> = match a.first() { Some(Value::Array(_)) => a.iter().collect(), _ => vec![v] };
+                        for s in sigs {
+                            best = best.max(1 + depth_of_sig(s));
+                        }
+                    }
+                }
+            }
+        }
+        best
+    }
+    fn depth_of_sig(s: &Value) -> usize {
+        let mut d = 0;
+        if let Value::Array(a) = s {
+            if a.len() >= 2 {
+                if let Value::Bytes(b) = &a[0] {
+                    if !b.is_empty() {
+                        if let Ok(h) = Value::from_slice(b) { d = d.max(depth_of_header(&h)); }
+                    }
+                }
+                d = d.max(depth_of_header(&a[1]));
+            }
+        }
+        d
+    }
+    let v = match Value::from_slice(&data) { Ok(v) => v, Err(_) => return "UNPARSABLE".into() };
+    let nesting = depth_of_sig(&v);       // a COSE_Sign1 has its headers in the same two slots
+    let r = CoseSign1::from_slice(&data);
+    let want_ok = limit < 0 || nesting as i64 <= limit;
+    if mode == "limit" && r.is_ok() != want_ok {
+        return format!("MISMATCH nesting={} limit={} accepted={}", nesting, limit, r.is_ok());
+    }
+    if mode == "limit" {
+        return format!("MATCH nesting={}", nesting);
+    }
+    if let Ok(x) = r {
+        let b1 = match x.clone().to_vec() { Ok(b) => b, Err(_) => return "MISMATCH accepted spine does not encode".into() };
+        match CoseSign1::from_slice(&b1) {
+            Ok(y) => if y != x { return "MISMATCH decode(encode(v)) != v".into(); },
+            Err(e) => return format!("MISMATCH encoding of an accepted spine is rejected ({})", err_name(&e)),
+        }
+    }
+    format!("MATCH nesting={}", nesting)
 }
